@@ -42,6 +42,9 @@ func exec(c px.Context, op string, args []sx.Sexp) core.Result {
 	if op == "sigs" {
 		return execSigs(c, args)
 	}
+	if op == "sigd" {
+		return execSigd(c, args)
+	}
 	if op == "cdesc" {
 		return execCdesc(c, args)
 	}
@@ -264,5 +267,6 @@ func gen(g *core.G) {
 	genSigs(g, lg)
 	genDescs(g, lg)
 	genCallable(g)
+	genSigd(g, lg)
 	lat.GenTier2(g.Emit, g.Rng, "C19")
 }
